@@ -234,6 +234,15 @@ class Flow:
             r = self.single_def_value(test.id, at)
             if r is not None and test.id not in stop:
                 return self.decide_under(r[0], assume, r[1], stop)
+            if r is None and test.id not in stop:
+                # bound on several paths: the one definition that lies on a path consistent with the assumptions
+                ds = self.defs(test.id, at)
+                if ds and "param" not in ds and all(isinstance(d, ast.Assign) and len(d.targets) == 1 and isinstance(d.targets[0], ast.Name) for d in ds):
+                    live = [d for d in ds if self.live_under(d, assume, stop=stop)]
+                    if len(live) == 1:
+                        return self.decide_under(live[0].value, assume, live[0], stop)
+        if isinstance(test, ast.Call) and isinstance(test.func, ast.Name) and test.func.id == "bool" and len(test.args) == 1 and not test.keywords:
+            return self.decide_under(test.args[0], assume, at, stop)
         neg = norm(ast.UnaryOp(op=ast.Not(), operand=clone(test)))
         tneg = norm(ast.UnaryOp(op=ast.Not(), operand=ast.parse(str(t), mode="eval").body)) if t else None
         for k, v in assume.items():
@@ -277,6 +286,15 @@ class Flow:
             for k, v in assume.items():
                 if neg == k:
                     return not v
+            if isinstance(test, (ast.Name, ast.Call)) and not getattr(flow, "_in_decide", False):
+                # a flag computed on several paths / wrapped in bool(): decided through its definitions
+                flow._in_decide = True
+                try:
+                    return flow.decide_under(test, assume, at=where, stop=stop)
+                except (AnalysisError, RecursionError):
+                    return None
+                finally:
+                    flow._in_decide = False
             return None
 
         class T(ast.NodeTransformer):
